@@ -135,6 +135,12 @@ Groups ==
             q \in {<<>>, <<[n |-> "q", sh |-> [p |-> "int", ref |-> <<>>, size |-> <<>>, opt |-> FALSE, wrap |-> ""]],
                            [n |-> "r", sh |-> [p |-> "string", ref |-> <<>>, size |-> <<>>, opt |-> TRUE, wrap |-> ""]]>>}},
          (IF Len(st.scope) < 4 THEN {[k |-> "rest", parts |-> <<[var |-> FALSE, n |-> "sub"]>>]} ELSE {}),
+         \* a nested block that adds a path variable of its own (named after the nesting depth, so names stay distinct)
+         (IF Rich /\ Len(st.scope) < 5
+            THEN {[k |-> "rest", parts |-> <<[var |-> FALSE, n |-> "in"],
+                                             [var |-> TRUE, n |-> "w" \o ToString(Len(st.scope)),
+                                              sh |-> [p |-> tp, ref |-> <<>>, size |-> <<>>, opt |-> FALSE, wrap |-> ""]]>>] : tp \in {"int", "string"}}
+            ELSE {}),
          {[k |-> "end"]} }
     [] fr.k \in {"ep", "block"} ->
        { {[k |-> "stmt", kind |-> "action", text |-> t, tags |-> <<>>, attrs |-> <<>>, pos |-> NoPos] : t \in Texts}
